@@ -382,15 +382,46 @@ Proof. vm_compute. repeat split. Qed.
 
 SPECS["C07"] = ("""property C07: filter JSON parsing is faithful, order-independent and round-trips.
    PARTIAL.  Proved: since/until/kinds/limit are read as the numeric value of their digit run, values
-   >= 2^64 are errors (limit is then saturated to 2^32-1 by N.min in the model), accepted values fit.
-   Faithfulness, order independence and the as_json round trip are decided per run by the differential
-   check (all 52x52 letter pairs, member orders, escapes, boundaries; python json as independent parser).""",
-  CODIMP, [
+   >= 2^64 are errors (limit is then saturated to 2^32-1 by N.min in the model), accepted values fit;
+   THE ROUND TRIP: parsing the text Filter::as_json writes gives back byte-for-byte the canonical encoding
+   of the same filter (FilterRoundTrip.v: the member loop with its found-bits and letter set, both passes
+   over ids/authors/kinds and over every tag array, numbers, the caller's buffer with any prior contents),
+   for every filter with distinct tag letters.  Faithfulness on texts as_json does NOT write (other member
+   orders, whitespace, escapes, unknown members, duplicates) and order independence are decided per run by the
+   differential check (all 52x52 letter pairs, member orders, escapes, boundaries; python json as
+   independent parser).""",
+  CODIMP + "\nFrom Pocket Require Import EscapeRoundTrip JsonRoundTrip FilterRoundTrip.", [
   ("C07_integer_value_partial",
    "forall l, read_u64 l = let '(ds, rest) := span_digits l in\n    match ds with [] => Err EJson | _ => if num_of ds <=? 18446744073709551615 then Ok (num_of ds, rest) else Err EJson end",
    "read_u64_spec", ""),
   ("C07_int_no_wrap", "forall l v r, read_u64 l = Ok (v, r) -> v < 18446744073709551616", "read_u64_fits", ""),
-  ], "")
+  ("C07_filter_json_roundtrip_partial",
+   "forall f tags txt out, wf_filter_json f tags -> filter_size f <= len out -> filter_as_json f = Ok txt ->\n    filter_from_json txt out = Ok (len txt, enc_filter f, enc_filter f ++ drop (filter_size f) out)",
+   "filter_json_roundtrip", "EVERY filter whose tag letters are distinct ASCII letters, whose ids/authors are 32 bytes, kinds < 2^16, numbers within their widths and strings valid UTF-8: Filter::from_json reads Filter::as_json's text back to exactly the canonical binary encoding, consuming the whole text and leaving the rest of the buffer untouched"),
+  ], """
+(* non-vacuity of the filter round trip: two ids, an author, two kinds, a tag with a quote and an empty value, an uppercase tag, since and limit *)
+Example C07_filter_example :
+  let tags : list tagspec := [(101, ([[97; 34]; []], [[97; 92; 34]; []])); (80, ([repeat 102 64], [repeat 102 64]))] in
+  let f := mkF [repeat 1 32; repeat 171 32] [repeat 2 32] [1; 30023] (map tag_of tags) 5 18446744073709551615 10 in
+  wf_filter_json f tags /\\ exists txt, filter_as_json f = Ok txt /\\
+    filter_from_json txt (repeat 170 (N.to_nat (filter_size f) + 3)) = Ok (len txt, enc_filter f, enc_filter f ++ [170; 170; 170]).
+Proof.
+  cbv zeta. split.
+  - unfold wf_filter_json. cbn [f_ids f_authors f_kinds f_tags f_limit f_since f_until].
+    assert (R : forall b n, b < 256 -> wf_bytes (repeat b n)) by (intros b n Hb; apply Forall_forall; intros x Hx; apply repeat_spec in Hx; subst x; exact Hb).
+    refine (conj eq_refl (conj _ (conj _ (conj _ (conj _ (conj _ _)))))).
+    + repeat constructor.
+      * exists [97; 34]. split; [repeat constructor; unfold scalar; lia|reflexivity].
+      * exists []. split; [constructor|reflexivity].
+      * exists (repeat 102 64). split; [|vm_compute; reflexivity]. apply Forall_forall. intros x Hx. apply repeat_spec in Hx. subst x. unfold scalar. lia.
+    + repeat constructor; cbn; intuition discriminate.
+    + repeat constructor; try (apply R; lia); vm_compute; reflexivity.
+    + repeat constructor; try (apply R; lia); vm_compute; reflexivity.
+    + repeat constructor; lia.
+    + repeat apply conj; vm_compute; reflexivity.
+  - eexists. split; [vm_compute; reflexivity|vm_compute; reflexivity].
+Qed.
+""")
 
 SPECS["C02"] = ("""property C02: event binary <-> JSON round trip is lossless and the binary form is canonical.
    PARTIAL.  Proved: the hex half of the round trip (read_hex (write_hex b) = b for ids, pubkeys,
